@@ -36,6 +36,7 @@ type Case struct {
 	PoolMask      int            `json:"pool_mask"`      // bit i: B's i-th tx is in the node's mempool as well
 	HeadersAhead  int            `json:"headers_ahead"`  // the node already knows the valid headers of B (1) and B2 (2)
 	PersistBefore bool           `json:"persist_before"` // flush the node right before the submission
+	Fresh         bool           `json:"fresh"`          // nodes replay everything from genesis (default: start from the flushed post-bootstrap backend, i.e. restarted at height 2)
 	Via           string         `json:"via"`            // "block" (AddBlock) | "headers" (AddHeaders)
 	Corr          Corruption     `json:"corr"`
 }
@@ -50,6 +51,13 @@ func filler(t *rapid.T, label string, from int) ck.Action {
 		VUB:   uint32(rapid.IntRange(0, 3).Draw(t, label+"_vub")),
 		Scope: 1,
 	}
+}
+
+func mix(x uint64) uint64 { // splitmix64 finaliser
+	x += 0x9e3779b97f4a7c15
+	x = (x ^ (x >> 30)) * 0xbf58476d1ce4e5b9
+	x = (x ^ (x >> 27)) * 0x94d049bb133111eb
+	return x ^ (x >> 31)
 }
 
 func genCase(sweep bool) func(t *rapid.T) Case {
@@ -82,14 +90,17 @@ func genCase(sweep bool) func(t *rapid.T) Case {
 		c.PoolMask = rapid.SampledFrom([]int{0, 0, 0xff, 0xff, 1, 2, 5, 0xaa}).Draw(t, "poolmask")
 		c.HeadersAhead = rapid.SampledFrom([]int{0, 0, 0, 0, 1, 2}).Draw(t, "ahead")
 		c.PersistBefore = rapid.Bool().Draw(t, "persist_before")
+		c.Fresh = rapid.IntRange(0, 7).Draw(t, "fresh") == 7
 		var e *entry
 		if sweep {
 			c.Corr.Kind = "*"
 			c.Via = "block"
 			c.Setup = rapid.Bool().Draw(t, "setup")
 		} else {
-			ks := kindsFor(c.Chain.SRIH)
-			c.Corr.Kind = rapid.SampledFrom(ks).Draw(t, "kind")
+			_, nv := c.Chain.Sizes()
+			ks := kindsFor(c.Chain.SRIH, nv > 1)
+			// rapid's integer draws favour small values; spread them with a bijective mixer so that kinds are uniform.
+			c.Corr.Kind = ks[mix(rapid.Uint64().Draw(t, "kind"))%uint64(len(ks))]
 			e = byKind[c.Corr.Kind]
 			c.Via = "block"
 			if !e.blockOnly && rapid.IntRange(0, 3).Draw(t, "via") == 0 {
